@@ -432,7 +432,8 @@ def perm_items(tier):
     for sp in F.five_task_join_specs()[:: (2 if tier == "quick" else 1)]:
         out.append((sp, {"rule": "TSLACK", "max_time": F.seq_bound(sp) + 6}))
     # eight tasks, FS only: a node with two routes of different length to the tail, two more levels upstream, a competitor chain and a loose task (all 8! orders)
-    for wv in (((2, 2, 2, 2, 2, 5, 2, 1),) if tier == "quick" else ((2, 2, 2, 2, 2, 5, 2, 1), (1, 2, 1, 3, 1, 4, 3, 2))):
+    # (quick: without the loose task, 7! orders; thorough: 8! orders, two work vectors)
+    for wv in (((2, 2, 2, 3, 2, 2, 7),) if tier == "quick" else ((2, 2, 2, 3, 2, 2, 7, 1), (1, 2, 1, 3, 1, 4, 3, 2))):
         fl = {"tasks": [{"name": F.tname(i), "work": float(w)} for i, w in enumerate(wv)], "links": [[0, 1, "FS"], [1, 2, "FS"], [2, 3, "FS"], [3, 4, "FS"], [2, 4, "FS"], [5, 6, "FS"]]}
         out += [(F.with_teams(fl, "POOL1"), {"rule": "TSLACK", "max_time": 40}, (k, 32)) for k in range(32)]
     # cost rates that do not add up associatively (0.1 + 0.2 + 0.3), three workers of one team busy in the same step (all orders of tasks and of workers)
